@@ -55,8 +55,8 @@ def make_script(rng: random.Random, case: Dict[str, Any], n_calls: int) -> Dict[
     def in_seg(a: int) -> bool:
         return any(s <= a < s + n for s, n in segs)
 
-    for call in range(n_calls):
-        if rng.random() < 0.35:
+    for call in range(-1, n_calls):   # call -1 = inside attach_memory, before the first op
+        if rng.random() < (0.35 if call >= 0 else 0.5):
             continue
         actions: List[List[Any]] = []
         for _ in range(rng.choice([1, 1, 2, 4])):
@@ -121,6 +121,7 @@ def reference_with_script(case: Dict[str, Any], script: Dict[int, List[List[Any]
         apply_actions_model(machine, script.get(machine.io_calls - 1, []), reads)
 
     m.read_hook, m.write_hook = read_hook, write_hook
+    apply_actions_model(m, script.get(-1, []), reads)   # what the device does when it is attached sees the loaded image
     m.run(max_ops)
     return m, reads
 
@@ -165,7 +166,10 @@ def shard_script(spec: Dict[str, Any], journal: Any) -> Dict[str, Any]:
 
             journal.note({'case': case, 'script': {str(k): v for k, v in script.items()}, 'config': config})
             device = Device(bytes.fromhex(case['input']), on_call=on_call)
+            device.call_on_attach = True
             obs = engines.run_engine(path, config, device)
+            if -1 in script:
+                counters['runs_with_accesses_at_attach_time'] = counters.get('runs_with_accesses_at_attach_time', 0) + 1
             counters['monitor_evaluations'] = counters.get('monitor_evaluations', 0) + 1
             counters['device_accesses'] = counters.get('device_accesses', 0) + sum(len(v) for v in script.values())
             label = engines.config_label(config)
